@@ -72,6 +72,8 @@ class ApiModel:
                     self.report(it, "API-THREAD", "double-create|%s" % fn[1],
                                 "a worker (%s) is created while the previous one on the same thread object was never joined" % fn[1])
                 s = s.set(("T", t[1], t[2]), (fn[1], vals[2]))
+                if WORKERS.get(fn[1]) == "sink":
+                    s = s.delete_where(lambda k: k == ("sinkdone",))
             return [(I(1), s)]
 
         def thread_join(it, s, vals, fr, n):
@@ -84,7 +86,24 @@ class ApiModel:
             outs = []
             s = s.delete_where(lambda k: k == ("T", t[1], t[2]))
             g = self.prog.func(pend[0])
-            for rv, s2 in it.call_function(g, [pend[1]], s, fr, n):
+            # a worker body only sees the heap: memoise its outcomes per heap (the source worker joins the
+            # filter worker on each of its many paths)
+            def is_local(k):
+                return isinstance(k[0], str) and k[0].startswith("L") and k[0][1:].isdigit()
+            heap = frozenset((k, v) for k, v in s.m.items() if not is_local(k))
+            key = (pend[0], pend[1], heap)
+            memo = self.__dict__.setdefault("_join_memo", {})
+            if key not in memo:
+                res_ = []
+                base = State().update(dict(heap))
+                for rv, s2 in it.call_function(g, [pend[1]], base, fr, n):
+                    if WORKERS.get(pend[0]) == "sink":
+                        s2 = s2.set(("sinkdone",), 1)
+                    res_.append(frozenset((k, v) for k, v in s2.m.items() if not is_local(k)))
+                memo[key] = list(dict.fromkeys(res_))
+            mine = {k: v for k, v in s.m.items() if is_local(k)}
+            for h2 in memo[key]:
+                s2 = State().update(dict(h2)).update(mine)
                 outs.append((TOP, s2))
             return outs
 
@@ -101,6 +120,46 @@ class ApiModel:
             return [(I(1), s), (I(0), s)]
 
         ring = ("ptr", "obj:ring", ())
+
+        def write_unmap(it, s, vals, fr, n):
+            ch = vals[0]
+            # a commit into the sink's input ring after the sink worker of this acquisition has returned:
+            # nobody will store that frame now, and it is still in the ring when the next acquisition starts
+            if is_ptr(ch) and tuple(ch[2][-2:]) == ("sink", "in") and s.get(("sinkdone",)) and s.get(("mapped", ch[1], ch[2])) \
+                    and not s.get(("refused", ch[1], ch[2])):
+                who = fr.fn.name if fr is not None else "?"
+                self.report(it, "API-LATE-COMMIT", who,
+                            "%s commits a frame into the sink's input ring after the sink worker has done its final flush and returned: the frame never reaches storage in this "
+                            "acquisition and is still in the ring when the next one starts (stale first frames, wrong ids)" % who)
+            if is_ptr(ch):
+                s = s.delete_where(lambda k: k == ("mapped", ch[1], ch[2]))
+            return [(TOP, s)]
+
+        def accept_writes(it, s, vals, fr, n):
+            ch, tf = vals[0], vals[1]
+            if is_ptr(ch):
+                if tf == ZERO:
+                    s = s.set(("refused", ch[1], ch[2]), 1)
+                else:
+                    s = s.delete_where(lambda k: k == ("refused", ch[1], ch[2]))
+            return [(TOP, s)]
+
+        def write_map(it, s, vals, fr, n):
+            ch = vals[0]
+            outs = [(ZERO, s)]
+            if is_ptr(ch) and s.get(("refused", ch[1], ch[2])):
+                return outs      # a channel that refuses writes hands out no region
+            if is_ptr(ch):
+                outs.append((ring, s.set(("mapped", ch[1], ch[2]), 1)))
+            else:
+                outs.append((ring, s))
+            return outs
+
+        def abort_write(it, s, vals, fr, n):
+            ch = vals[0]
+            if is_ptr(ch):
+                s = s.delete_where(lambda k: k == ("mapped", ch[1], ch[2]))
+            return [(TOP, s)]
         st.update({
             "malloc": malloc, "free": free, "memset": memset,
             "logger_set_reporter": const(TOP), "aq_logger": const(TOP),
@@ -110,9 +169,9 @@ class ApiModel:
             "thread_init": const(TOP), "thread_create": thread_create, "thread_join": thread_join,
             "event_init": const(TOP), "event_destroy": const(TOP), "event_wait": const(TOP),
             "event_notify_all": const(TOP),
-            "channel_new": const(TOP), "channel_release": const(TOP), "channel_accept_writes": const(TOP),
-            "channel_write_map": either(ring, ZERO), "channel_write_unmap": const(TOP),
-            "channel_abort_write": const(TOP), "channel_read_map": const(TOP), "channel_read_unmap": const(TOP),
+            "channel_new": const(TOP), "channel_release": const(TOP), "channel_accept_writes": accept_writes,
+            "channel_write_map": write_map, "channel_write_unmap": write_unmap,
+            "channel_abort_write": abort_write, "channel_read_map": const(TOP), "channel_read_unmap": const(TOP),
             "make_vfslice": const(TOP), "make_vfslice_mut": const(TOP), "vfslice_split_at_delay_ms": const(TOP),
             "frame_iterator_init": const(TOP), "frame_iterator_next": either(ZERO, ring),
             "throttler_init": const(TOP), "throttler_wait": const(TOP),
@@ -132,6 +191,7 @@ class ApiModel:
     # ------------------------------------------------------------------
     def make_interp(self):
         it = Interp(self.prog, self.stubs())
+        it.fuel = 400000000   # the source worker joins the filter worker: worker bodies nest
         it.counter_fns = {f.name for f in self.prog.all_funcs() if f.file.endswith("src/acquire.c")}
         return it
 
@@ -252,6 +312,8 @@ class ApiModel:
                         s = st.delete_where(lambda kk, k=k: kk == k)
                         # remember that it ran; the thread object is finished
                         for rv, s2 in it.run(v[0], [v[1]], s):
+                            if which == "sink":
+                                s2 = s2.set(("sinkdone",), 1)
                             outs.append(("run(%s)" % which, s2))
                 return outs
             return op
@@ -294,7 +356,7 @@ def simulate(prog, max_states=6000, skip=()):
     def clean(s2):
         # per-call ghosts and the contents of the (abstract) ring carry nothing
         # from one API call to the next
-        s2 = s2.delete_where(lambda k: k in drop or k[0] == "obj:ring")
+        s2 = s2.delete_where(lambda k: k in drop or k[0] == "obj:ring" or k[0] == "mapped")
         return s2.set(("obj:ring", ("<t>",)), 1)
     for name, op in m.ops(it):
         if skip and name in skip:
